@@ -86,6 +86,18 @@ func (n TNode) Abs() string {
 // Body is the deterministic content of a file node.
 func (n TNode) Body() []byte {
 	b := []byte(n.Tok)
+	if n.Size >= 10000 {
+		// incompressible filler: the compressed stream is then long enough to be
+		// flushed (and the packer to yield) many times in the middle of this file
+		x := uint64(len(n.Tok))*0x9E3779B97F4A7C15 + uint64(n.Size) + uint64(len(n.Path))
+		for i := 0; i < n.Size; i++ {
+			x ^= x << 13
+			x ^= x >> 7
+			x ^= x << 17
+			b = append(b, byte(x>>24))
+		}
+		return b
+	}
 	for i := 0; i < n.Size; i++ {
 		b = append(b, byte('A'+(i*11+len(n.Tok))%26))
 	}
